@@ -17,7 +17,7 @@ import (
 
 var pairSubjects = []string{"jwt-at", "jwt-at-b", "opaque-at", "rt", "idt", "idt-b", "idt-web", "expired-jwt-at", "expired-idt", "revoked-jwt-at",
 	"foreign-iss", "forged-key", "garbage", "ext"}
-var pairAuths = []string{"webjwt", "web", "assertion", "post", "no-grant", "wrong-secret"}
+var pairAuths = []string{"webjwt", "web", "assertion", "post", "xonly", "no-grant", "wrong-secret"}
 
 var pairSpace = engine.Space{
 	engine.D("x.subj", pairSubjects...),
